@@ -131,6 +131,11 @@ func init() {
 				}
 			}
 		}
+		// A failed call followed by a retry that runs before the caches have caught up.
+		fl := jobBase("none-att1-fault1-lag1")
+		fl.PodActions = fullPod
+		fl.Budget = mc.Budget{Faults: 1, Lag: 1}
+		add(fl)
 		// Lag after recovery.
 		s := jobBase("none-att2-crash1-lag1")
 		s.MaxAttempts, s.MaxFail = 2, 1
